@@ -8,6 +8,7 @@ The tidytcells standardiser `f col cell` is external and arbitrary here.
 -/
 import Prs.Proofs.Cleaning
 import Prs.Generated.Constants
+import Prs.Generated.Cdr3Rule
 import Prs.Proofs.Merge
 import Prs.Proofs.MergeFold
 namespace Prs
@@ -200,6 +201,33 @@ theorem C18_multimerge_fold_right_keys (t : KTable K V) (ts : List (KTable K V))
   ⟨mergeFold_right_keys t ts hwf, fun how a b ha hb => mergeTwo_wf how a b ha hb⟩
 
 end merge
+
+/-! ### the source of the two predicates: `Generated/Cdr3Rule.lean` is rewritten from `isvalidaa` / `isvalidcdr3` of pyrepseq/io.py on
+every run (which exceptions each turns into False, which positions `isvalidcdr3` looks at, which letters it accepts there) -/
+
+/-- the exceptions the source of `isvalidcdr3` catches are the ones the model catches (in any order), for every object … -/
+theorem C18_source_cdr3_caught (A : List Char) (o : PyObj) :
+    isvalidcdr3With (Generated.cdr3Caught.map pyErrOfName) A o = isvalidcdr3 A o := by
+  unfold isvalidcdr3
+  apply isvalidcdr3With_congr
+  intro e
+  cases e <;> decide
+
+/-- … hence the predicate built from the source's own `except` clause is total … -/
+theorem C18_source_cdr3_total (A : List Char) (o : PyObj) :
+    ∃ b, isvalidcdr3With (Generated.cdr3Caught.map pyErrOfName) A o = .ok b := by
+  rw [C18_source_cdr3_caught]; exact C18_isvalidcdr3_total A o
+
+/-- … the source tests position 0 for 'C' and position −1 for one of 'F', 'W', 'C' (in any order), as `isvalidcdr3Body` does,
+and `isvalidaa` turns exactly TypeError into False -/
+theorem C18_source_cdr3_letters :
+    Generated.cdr3First = (0, 'C') ∧ Generated.cdr3Last.1 = -1 ∧
+    (∀ c, c ∈ Generated.cdr3Last.2 ↔ (c = 'F' ∨ c = 'W' ∨ c = 'C')) ∧
+    (∀ e, e ∈ Generated.aaCaught.map pyErrOfName ↔ e = PyErr.typeError) := by
+  refine ⟨by decide, by decide, fun c => ?_, fun e => ?_⟩
+  · simp only [Generated.cdr3Last, List.mem_cons, List.not_mem_nil, or_false]
+    all_goals (constructor <;> (rintro (h | h | h) <;> simp [h]))
+  · cases e <;> decide
 
 example : isvalidcdr3 Generated.aminoacids (.str "CASSLGQAYEQYF".toList) = .ok true := by
   rw [C18_isvalidcdr3_str]; exact congrArg Except.ok (by decide)
